@@ -6,6 +6,8 @@ import unicodedata
 from ..core import Property, unparse, norm, REPO_ROOT
 from ..sym import Interp, S, term, show, subterms, flatten_cat
 from .. import intv, mut
+from ..cfg import build_cfg
+from ..dfa import guards_of
 
 PROP = Property(
     'C14', 'BIP39: NFKD normalisation of sentence and passphrase, PBKDF2 parameters, checksum/unknown-word guards, word lists',
@@ -293,6 +295,8 @@ def entropy_domain(ctx):
             continue
         for t, pol in e.pc:
             if any(isinstance(s, tuple) and s[0] == 'bytes2int' for s in subterms(('w', t))):
+                from ..sym import rewrite as _rw
+                t = _rw(t, lambda x: ('var', 'entropy') if isinstance(x, tuple) and x and x[0] == 'bytes2int' else None)      # how the bytes are obtained is not part of the finding
                 ctx.violate(q, 'default call raises when %s%s' % ('' if pol else 'not ', show(t)[:200].replace(str(0xFFFFFFFFFFFFFFFFFFFFFFFFFFFFFFFEBAAEDCE6AF48A03BBFD25E8CD0364141), 'secp256k1_n')), e.node,
                             'BIP39 defines a sentence for every entropy, including all-zero and all-ones')
     ctx.saw('to_mnemonic exits: %s' % [e.kind for e in exits])
@@ -359,3 +363,25 @@ def word_index(ctx):
     for r_ in set(reps):
         ctx.saw('to_mnemonic word selection: %s' % show(r_[3])[:100])
         ctx.require(r_[3] == ('index', wl, ('elem', r_[1], r_[2])), q, 'word chosen for index i is %s, expected self._wordlist[i]' % show(r_[3])[:100], fn)
+
+
+@PROP.obligation('C14.entropy-bytes', canaries=[
+    mut.replace_stmt('mnemonic', 'Mnemonic.to_mnemonic', 'if not isinstance(data, bytes)', 'data = to_bytes(data)', 'raw entropy bytes passed through the hex-decoding helper'),
+])
+def entropy_bytes(ctx):
+    """Mnemonic.to_mnemonic and Mnemonic.checksum: entropy given as raw bytes is used as it is. encoding.to_bytes() first tries to
+    hex-decode its argument - also a bytes argument - so it may only be applied to non-bytes input: 16 entropy bytes that happen to be
+    ASCII hex digits would otherwise become 8 other bytes and a 6-word sentence."""
+    for q in ('mnemonic:Mnemonic.to_mnemonic', 'mnemonic:Mnemonic.checksum'):
+        fn = ctx.repo.func(q)
+        g = build_cfg(fn)
+        calls = [n for n in g.nodes if n.ast is not None and n.kind == 'stmt' and isinstance(n.ast, ast.Assign) and norm(n.ast.targets[0]) == 'data' and norm(n.ast.value) == 'to_bytes(data)']
+        if not calls:
+            ctx.saw('%s: entropy is not passed through to_bytes' % q)
+            continue
+        for c in calls:
+            gs = [(norm(g[t].ast), pol) for t, pol in guards_of(g, c.id)]
+            ok = ('isinstance(data, bytes)', 'F') in gs or ('isinstance(data, str)', 'T') in gs
+            ctx.saw('%s: data = to_bytes(data) under %s' % (q, gs))
+            ctx.require(ok, q, 'raw entropy bytes are passed through to_bytes(), which hex-decodes bytes that look like ASCII hex', c.ast,
+                        "to_mnemonic(b'0123456789abcdef') is the 6-word sentence of the 8 bytes 01 23 45 67 89 ab cd ef")
